@@ -1,9 +1,31 @@
 // Package c10: block-level boxes are sized and stacked per CSS 2.1.
 //
-// Bounded exhaustive enumeration of block-only documents (vertical deviation lattice over
-// shapes of 3–4 divs, full horizontal product on one box, cross term) laid out by the real
-// code and compared, box by box, with a reference model of CSS 2.1 §10.3.3, §10.4, §8.3.1 and
-// §10.6.3 (ref.go).
+// Bounded exhaustive enumeration of block-only documents laid out by the real code
+// (render.Layout) and compared, box by box, with a reference model of CSS 2.1 §10.3.3, §10.4,
+// §8.3.1, §10.6.3 and §10.7 (ref.go; its own examples are in selftest.go):
+//
+//   - vertical: deviation lattice over every shape of 3 (4) divs under body; slots per box:
+//     margin-top, margin-bottom, top padding/border, bottom border/padding, height, content;
+//     plus a trailing sentinel line; two skeletons (every box empty / every box holds a line);
+//   - horizontal: full product of the width/margin/min/max/box-sizing/padding/border menu on
+//     one box inside several containers, with a child that probes its content box;
+//   - cross term: every low-level vertical case with one horizontal, percentage or box-sizing
+//     deviation on one box.
+//
+// Clauses: width, x, margin-left, margin-right (not over-constrained), width-equation, text-x;
+// y (top border edge of observable boxes and lines of text), bottom (bottom border edge of
+// observable auto-height boxes), height (fixed-height boxes and boxes without area),
+// no-overlap, box-count, line-missing. Vertical edges are compared in flow order and an edge
+// displaced like the edge before it is a consequence, not a new failure.
+//
+// Feature tags are computed by the reference model from the input alone: they describe the
+// sets of adjoining margins that lie immediately before the failing edge
+// (collapsed-through, nested-empty-blocks, first-child-collapsed-through, negative-margin),
+// the box (fixed-height-parent, at-collapsed-through-box) or its horizontal declarations.
+//
+// Development aids (environment): C10_CENSUS=1 puts the feature set into the clause name so
+// that the engine reports every (clause, feature set) class; C10_ONLY=V|H|X keeps the units
+// of some sub-spaces. `c10 show '<body id=body>…'` prints reference and observed layout.
 package c10
 
 import (
@@ -182,6 +204,14 @@ func (c *check) run(u int64, ctx reporter) {
 				for i, s := range un.subset {
 					m.apply(doc, boxes, parent, int(s), alts[i])
 				}
+				if cd.slot == pH {
+					// height:50% of a height:0 parent: whether an empty box whose percentage
+					// height resolves to 0 is collapsed through is not settled by §8.3.1
+					// ("zero computed height"); the region is left out
+					if p := parent[bi]; p >= 0 && boxes[p].h == px(0) {
+						continue
+					}
+				}
 				cd.apply(boxes[bi])
 				ctx.Trans(int64(len(un.subset)) + 1)
 				c.runCase(ctx, doc, "X")
@@ -224,19 +254,30 @@ func (c *check) runCase(ctx reporter, doc *docSpec, space string) {
 	ctx.Case(nontrivial, ob.String())
 	ctx.Count("cases-"+space, 1)
 
+	fails := judge(ctx, doc, ref, obs, desc)
+	for _, f := range fails {
+		ctx.Fail(f)
+	}
+}
+
+// judge compares the layout with the reference, under both readings where the document is
+// in the region in which the letter of §8.3.1 and the browsers differ.
+func judge(ctx reporter, doc *docSpec, ref *refDoc, obs map[string]*obox, desc string) []engine.Failure {
 	fails := compare(ctx, ref, obs, desc)
 	if len(fails) > 0 && ref.ambiguous {
 		// §8.3.1 read literally keeps the bottom margin of a height:0 box that has (only
 		// collapsed-through) children apart from its top margin; browsers treat such a box
-		// as empty and collapse through it. Either reading is accepted.
-		if len(compare(nullReporter{}, buildRef(doc, true), obs, desc)) == 0 {
-			ctx.Count("accepted-under-the-empty-box-reading-of-height:0-parents", 1)
-			fails = nil
+		// as empty and collapse through it. Either reading is accepted; when neither fits,
+		// the disagreements with the closer one are reported.
+		alt := compare(nullReporter{}, buildRef(doc, true), obs, desc)
+		if len(alt) == 0 {
+			ctx.Count("accepted-under-the-empty-box-reading-of-height:0-boxes", 1)
+		}
+		if len(alt) < len(fails) {
+			fails = alt // the reading the implementation follows
 		}
 	}
-	for _, f := range fails {
-		ctx.Fail(f)
-	}
+	return fails
 }
 
 type nullReporter struct{}
